@@ -1,6 +1,7 @@
 import CV.Drv.Line
 import CV.Drv.Irc
 import CV.Drv.Core
+import CV.Drv.Core2
 import CV.Drv.StaticPath
 import CV.Drv.Ranges
 import CV.Drv.Auth
@@ -22,7 +23,7 @@ Imports only CV.Model.* / CV.Drv.* (no Mathlib) so that it links as an executabl
 open CV.Drv
 
 def machines : List (String × Machine) :=
-  [ ("line", lineMachine), ("irc", ircMachine), ("core", CM.coreMachine),
+  [ ("line", lineMachine), ("irc", ircMachine), ("core", CM.coreMachine), ("core2", CM2.core2Machine),
     ("staticpath", staticPathMachine), ("ranges", rangesMachine),
     ("auth", C20.authMachine), ("session", C20.sessionMachine), ("vhost", C20.vhostMachine),
     ("httpresp", httprespMachine), ("ws", wsMachine),
